@@ -62,7 +62,7 @@ intro = '''## 11. Seeded changes and which checks catch them
 Each change was written by a fresh sub-agent that was given only the text of one property and its own scratch
 worktree (nothing from /verif), and was kept only after `tools/confirm_mut.sh` had confirmed, in another scratch
 worktree of the current `/repo` HEAD, that the demonstration passes without the change and fails with it and that
-the whole existing suite still passes with it.  Six batches were produced (`-a` … `-f`; the last a small one of twelve for six properties; from the third on with the
+the whole existing suite still passes with it.  Seven batches were produced (`-a` … `-g`; `-f` a small one of twelve for six properties, `-g` five for the properties with the fewest changes, asked for changes that need a long-lived connection, a boundary value or an unusual transport segmentation; from the third on with the
 request to prefer the less obvious code paths, both stacks, both roles, configuration-dependent behaviour and
 interactions between features; the fourth for the seven properties that had the fewest changes, the fifth for the
 other twelve).  After the last `fix:` commit all of
@@ -81,7 +81,7 @@ runs the quick check of its property there (`VERIF_REPO`); `/repo` is never touc
 SUMMARY
 
 First exposure, i.e. each batch against the checks as they stood when the batch arrived: batch a 29 of 36 caught,
-b 22 of 32, c 14 of 24, d 12 of 14, e 18 of 24, f 10 of 12 — 105 of 142; the misses were analysed one by one and are listed after
+b 22 of 32, c 14 of 24, d 12 of 14, e 18 of 24, f 10 of 12, g 4 of 5 — 109 of 147; the misses were analysed one by one and are listed after
 the table with what was added for each.  The rate did not rise from batch to batch because each batch was asked
 for less obvious changes than the one before; what the later batches found were mostly obligations that a harness
 already exercised but asserted under another property's name, over-constrained pre-states, and situations no
@@ -113,7 +113,9 @@ operations (C11-e1), a transport that reports EOF together with the last bytes (
 the datagram stack stays fatal (C12-e2), an early ChangeCipherSpec is accepted when retransmitted in turn (C19-e1); after the sixth batch: the Finished
 transcript lemma of the drivers is asserted under C04 too (C04-f2: both roles leaving CertificateVerify out of the
 transcript agree with each other, not with the standard), exactly one protocol name in the ServerHello's ALPN
-extension (C14-f2).
+extension (C14-f2); after the seventh batch: the one-step lemma on the real `incSeq` (symbolic 64-bit pre-state) is
+asserted under C05 as well — a dropped carry repeats sequence numbers, so record 0 is authentic again at position 256
+(C05-g1; C04-g1, a carry that skips a byte, was caught by the same lemma under C04).
 Not caught and not catchable by this
 technique: `C11-C11-c2` (a read-lock fast path in the session cache that is wrong only under a concurrent eviction:
 every sequential history is correct; goroutine schedules are outside the engine, see C13 in section 8).
